@@ -62,7 +62,7 @@ func qStartMem() (*qMem, error) {
 		return nil, err
 	}
 	m.pool = sql.OpenDB(conn)
-	m.pool.SetMaxIdleConns(4)
+	m.pool.SetMaxIdleConns(0) // every Conn() is a brand-new server-side session (no leftover USE / transaction state)
 	if err := m.pool.Ping(); err != nil {
 		return nil, fmt.Errorf("memory server ping: %w", err)
 	}
